@@ -172,6 +172,7 @@ func runC13(w *World, r *Report, tier string) {
 	ruleTileLoop(w, r)
 	ruleTileCompose(w, r)
 	ruleCacheKey(w, r, own)
+	ruleNoSkip(w, r, "transform.ConvertTileXYZsToExtendedSpatialIDs")
 	ruleElementwise(w, r, "transform.ConvertTileXYZsToExtendedSpatialIDs", 0)
 	ruleElementwise(w, r, "transform.ConvertTileXYZsToSpatialIDs", 0)
 	if f := lookupByName(w, "transform.ConvertTileXYZsToExtendedSpatialIDs"); f != nil {
